@@ -601,6 +601,34 @@ def register(T, repo):
     T.stmt_hooks[PAR + 'expand_sequence'] = es_stmt_hook
 
     lp = T.get(PAR + 'expand_sequence').loop(0)
+
+    def verb_copied(E0, E1):
+        # C02 / C03: verbatim material met in text mode is copied -- a
+        # \\verb token taken from the buffer ends the iteration as a Text
+        # token with the same text at the same position (whatever the text
+        # looks like: a brace, a dollar sign, a double backslash)
+        ex = E1['$ex']
+        tok = E1['tok']
+        o = tok.obj if isinstance(tok, Opt) else tok
+        isn = tok.isnone if isinstance(tok, Opt) else False
+        if not isinstance(o, Obj):
+            return True
+        isverb = And(Not(isn), tm.cls_is(ex, o, D + 'VerbatimToken'),
+                     Not(zbool(tm.tfield(o, 'environ', False))))
+        out1 = E1['out']
+        ok = False
+        if isinstance(out1, TokList) and out1.segs and \
+                isinstance(out1.segs[-1], Single) and \
+                isinstance(out1.segs[-1].obj, Obj):
+            t = out1.segs[-1].obj
+            ok = And(tm.cls_is(ex, t, D + 'TextToken'),
+                     sym.seq_eq(lift_str(t.fields['txt']),
+                                lift_str(o.fields['txt'])),
+                     zint(t.fields['pos']) == zint(o.fields['pos']),
+                     zbool(t.fields['pos_fix']) ==
+                     zbool(o.fields['pos_fix']))
+        return Implies(isverb, ok)
+    lp.body_post.append(('verbatim-material-is-copied', verb_copied))
     loop_parser_shapes(lp)
     lp.shapes['out'] = lambda E: tm.PreOutList(E['src'])
     lp.shapes['tok'] = lambda E: tm.OptTokS(tm.DocTok(E['src']))
